@@ -107,7 +107,7 @@ func ModelEval(m *MState, op *Op, bs [][]byte, c counter) (mOut, error) {
 	}
 	mo := mOut{eqWant: -1}
 	r := op.R
-	if op.K == "scribble" {
+	if op.K == "scribble" || op.K == "burst" {
 		return mo, nil
 	}
 	if IsElemOp(op.K) {
